@@ -33,7 +33,7 @@ enum {MARKER_WHAT = 777777, ROUTED_WHAT = 0x726f7574 /* 'rout' */};
 static const char * kOpIdField = "vsim_opid";
 
 struct Sub {Filt filt; bool quiet = false;};
-struct PendingSubOp {bool isSub; std::string pat; Filt filt; bool quiet; bool all;};
+struct PendingSubOp {bool isSub; std::string pat; Filt filt; bool quiet; bool all; std::vector<std::pair<std::string, Filt> > more;};
 
 struct Oracles
 {
@@ -378,7 +378,7 @@ public:
             if (pi != c->pending.end())
             {
                const PendingSubOp & op = pi->second;
-               if (op.isSub) {Sub s; s.filt = op.filt; s.quiet = op.quiet; c->clientSubs[op.pat] = s; st.inc("p.subscribe_processed");}
+               if (op.isSub) {Sub s; s.filt = op.filt; s.quiet = op.quiet; c->clientSubs[op.pat] = s; st.inc("p.subscribe_processed"); for (auto & x : op.more) {Sub s2; s2.filt = x.second; s2.quiet = op.quiet; c->clientSubs[x.first] = s2; st.inc("p.subscribe_processed_multi_field");}}
                else
                {
                   if (op.all) c->clientSubs.clear(); else c->clientSubs.erase(op.pat);
